@@ -657,6 +657,49 @@ func genCreds(repo string, fs facts) (string, error) {
 	}
 	out["persistTries"] = persist
 
+	// Every mutation of a role record is one KV.Mutate (the store's atomic
+	// read-modify-write), not a Get followed by a Set.
+	rmu, err := need(rl, "Roles", "mutate")
+	if err != nil {
+		return "", err
+	}
+	viaMutate := c16Find(rmu.Body, func(x ast.Node) bool {
+		c, ok := x.(*ast.CallExpr)
+		if !ok {
+			return false
+		}
+		se, ok := c.Fun.(*ast.SelectorExpr)
+		return ok && se.Sel.Name == "Mutate" && rl.src(se.X) == "b.t"
+	})
+	separateStore := c16Find(rmu.Body, func(x ast.Node) bool {
+		c, ok := x.(*ast.CallExpr)
+		if !ok {
+			return false
+		}
+		se, ok := c.Fun.(*ast.SelectorExpr)
+		return ok && (se.Sel.Name == "Set" || se.Sel.Name == "Replace" || se.Sel.Name == "Emplace") && rl.src(se.X) == "b.t"
+	})
+	if len(rmu.Body.List) == 0 {
+		viaMutate, separateStore = true, false // fallback (already listed as a miss)
+	}
+	out["rolesMutateAtomic"] = viaMutate && !separateStore
+	callers := 0
+	for _, name := range []string{"setDisabled", "NewPassCode", "SetupWithCode"} {
+		if fd := rl.fn("Roles", name); fd != nil && fd.Body != nil {
+			if c16Find(fd.Body, func(x ast.Node) bool {
+				c, ok := x.(*ast.CallExpr)
+				if !ok {
+					return false
+				}
+				se, ok := c.Fun.(*ast.SelectorExpr)
+				return ok && se.Sel.Name == "mutate" && rl.src(se.X) == "b"
+			}) {
+				callers++
+			}
+		}
+	}
+	out["rolesMutators"] = callers
+
 	npc, err := need(rl, "Roles", "NewPassCode")
 	if err != nil {
 		return "", err
@@ -771,6 +814,7 @@ func genCreds(repo string, fs facts) (string, error) {
 	bl("consumedSet", "roles.SetupWithCode sets Consumed on success")
 	bl("triedCounted", "roles.SetupWithCode increments Tried before checking")
 	bl("persistTries", "roles.SetupWithCode: a failed check does not abort the Mutate (the counter is stored)")
+	bl("rolesMutateAtomic", "roles.Roles.mutate runs the callback inside b.t.Mutate and does no separate store")
 	itg("passCodeBufferNs", "roles.NewPassCode: const buffer")
 	itg("passCodeDefaultExpiryNs", "roles.NewWithName: default passCodeExpiry")
 	itg("gateDefaultLifetimeNs", "authgate.New: lifetime when SessionLifeTime <= 0")
